@@ -132,11 +132,15 @@ RTPS_NOTE = ("the real participants run in the deterministic simulation (public 
              "Trace_Rtps.tla judges every recorded step; bounded liveness = heal + 3 s quiescence")
 
 
-def simprop(gen, owns, required, spec="Trace_Rtps", keep_sleep=False):
+RTPS_MC = {"quick": [("MC_Rtps", "MC_Rtps_quick.cfg")],
+           "thorough": [("MC_Rtps", "MC_Rtps_safety.cfg"), ("MC_Rtps", "MC_Rtps_safetyfrag.cfg")]}
+
+
+def simprop(gen, owns, required, spec="Trace_Rtps", keep_sleep=False, mc=RTPS_MC):
     return {
         "run": lambda p, tier, seed: simcheck.sim_check(p, tier, seed, gen(tier, seed), spec,
                                                         lambda rule: any(rule.startswith(o + ":") for o in owns),
-                                                        required, RTPS_NOTE, keep_sleep=keep_sleep),
+                                                        required, RTPS_NOTE, keep_sleep=keep_sleep, mc=mc),
         "replay": lambda p, path: simcheck.sim_replay(p, path, spec, keep_sleep=keep_sleep),
     }
 
@@ -168,3 +172,138 @@ PROPS = {
     "C25": rc("C25", {"quick": C("C25", "C25b"), "thorough": C("C25", "C25b")},
               ["timefilter:closer-than-minimum-separation"]),
 }
+
+
+# ------------------------------------------------------------------------------------------
+# C15: Compat.tla as oracle (exhaustive on the pure functions) + end-to-end matching in the simulation
+# ------------------------------------------------------------------------------------------
+def _cases_from_tlc(module, cfg, wd):
+    r = vlib.run_tlc(module, cfg, wd, workers=4, timeout=600, capture_edges=False)
+    cases = []
+    for l in open(r["out"], errors="replace"):
+        if l.startswith('<<"CASE", "'):
+            cases.append(json.loads(vlib.tla_unescape(l.rstrip("\n")[len('<<"CASE", "'):-3])))
+    return r, cases
+
+
+def c15_run(prop, tier, seed):
+    import random
+    wd = vlib.workdir(prop)
+    known = vlib.load_known()
+    rng = random.Random(seed)
+    r1, qcases = _cases_from_tlc("MC_Compat", "MC_Compat.cfg", wd)
+    r2, pcases = _cases_from_tlc("MC_Partition", "MC_Partition.cfg", wd)
+    if len(qcases) < 1000 or len(pcases) < 100:
+        raise ToolError("vacuity guard: too few enumerated compatibility cases")
+    cf = os.path.join(wd, "compat.cases")
+    with open(cf, "w") as f:
+        for c in qcases:
+            f.write(json.dumps(c) + "\n")
+    rep_path = os.path.join(wd, "compat.rep")
+    vlib.run_vh(["compat", "--cases", cf, "--out", rep_path])
+    rep = json.load(open(rep_path))
+    violations, known_hits = [], []
+
+    def report(sig, what, content):
+        kf = next((k for k in known["findings"] if sig.startswith(k["signature"])), None)
+        if kf:
+            known_hits.append({"sig": sig, "what": f"{kf['what']} [{sig}]"})
+            return
+        if any(v["sig"] == sig for v in violations):
+            return
+        name = re.sub(r"[^A-Za-z0-9_.-]", "_", sig)[:140]
+        path = vlib.save_replay(prop, name, content)
+        violations.append({"sig": sig, "what": what, "replay": path})
+
+    for d in rep["distinct"]:
+        sig = "Compat:function:" + d["sig"]
+        report(sig, f"{sig}: expected {d['expected']} got {d['got']} for {json.dumps(d['case'])[:300]}",
+               {"property": prop, "kind": "function", "signature": sig, "case": {"q": d["case"], "inc": d["expected"]}, "got": d["got"]})
+    # end to end: sampled QoS cases (all single-policy incompatibilities + compatible ones) and partition cases
+    nq = 120 if tier == "quick" else 1500
+    npart = 120 if tier == "quick" else len(pcases)
+    qs = rng.sample(qcases, min(nq, len(qcases)))
+    ps = rng.sample(pcases, min(npart, len(pcases)))
+    default_q = next(c for c in qcases if c["inc"] == [])
+    e2e = [{"q": c["q"], "pp": [], "sp": [], "expect": c["inc"] == [], "why": c["inc"]} for c in qs]
+    e2e += [{"q": default_q["q"], "pp": c["a"], "sp": c["b"], "expect": c["m"], "why": "partition"} for c in ps]
+    scen = []
+    per = 20
+    for k in range(0, len(e2e), per):
+        steps = [{"do": "participant"}, {"do": "participant"}, {"do": "sleep", "ms": 200}]
+        for j, c in enumerate(e2e[k:k + per]):
+            steps.append({"do": "compat_case", "q": c["q"], "pp": c["pp"], "sp": c["sp"], "id": k + j, "ms": 400})
+        scen.append({"name": f"C15-e2e-{k}", "family": "e2e", "seed": seed, "frag": 1344, "steps": steps})
+    runs = simcheck.run_sim_batch(scen, wd, "c15", jobs=4)
+    checked = 0
+    skipped = 0
+    for run in runs:
+        for e in (run or []):
+            if e["ev"] == "SimError":
+                report("Compat:e2e:simulation-error", f"simulation error {e['err']}", {"property": prop, "kind": "e2e", "error": e["err"]})
+            if e["ev"] != "CompatResult":
+                continue
+            c = e2e[e["id"]] if "id" in e and e["id"] is not None else None
+            if c is None:
+                continue
+            if "skip" in e:
+                skipped += 1
+                continue
+            checked += 1
+            want = 1 if c["expect"] else 0
+            if "err" in e or e.get("w_matched") != want or e.get("r_matched") != want:
+                side = "both" if e.get("w_matched") == e.get("r_matched") else "sides-disagree"
+                sig = f"Compat:e2e:{'partition' if c['why'] == 'partition' else 'qos'}:{'missed-match' if want else 'spurious-match'}:{side}"
+                report(sig, f"{sig}: expected matched={want}, writer sees {e.get('w_matched')}, reader sees {e.get('r_matched')} {e.get('err', '')}",
+                       {"property": prop, "kind": "e2e", "signature": sig, "case": c, "observed": e})
+    if checked + skipped < len(e2e) * 0.9 or checked < len(e2e) * 0.5:
+        raise ToolError(f"only {checked} of {len(e2e)} end-to-end cases produced a result")
+    coverage = {
+        "states": r1["stats"]["distinct"] + r2["stats"]["distinct"],
+        "transitions": len(qcases) + len(pcases),
+        "traces_validated_against_impl": len(qcases) * 2 + checked,
+        "evaluations": len(qcases) * 2 + checked,
+        "distinct_nontrivial": rep["nontrivial"],
+        "rule": "every enumerated (offered, requested) QoS record of Compat.tla is evaluated by both compatibility functions of the "
+                "code; sampled records and partition-list pairs are additionally created as real writer/reader pairs in the simulation; "
+                "non-trivial = records the specification declares incompatible",
+        "function_cases": len(qcases), "function_disagreements": rep["disagreements"],
+        "end_to_end_cases": checked, "end_to_end_cases_skipped_inconsistent_qos": skipped, "partition_cases_enumerated": len(pcases),
+        "exhaustive": True,
+        "checker_cmd": r1["stats"]["cmd"],
+        "samples": [qcases[0], qcases[len(qcases) // 2], pcases[len(pcases) // 3]],
+    }
+    return {"level": "model_checking", "coverage": coverage, "violations": violations, "known": known_hits,
+            "assumptions": ["abstract value -> concrete QoS mapping in harness/src/compat.rs", "TLC + CommunityModules Json",
+                            "pattern-against-pattern partition matching is outside the enumerated domain"]}
+
+
+def c15_replay(prop, path):
+    rep = json.load(open(path))
+    wd = vlib.workdir(prop + ".replay")
+    if rep.get("kind") == "function":
+        cf = os.path.join(wd, "c.cases")
+        open(cf, "w").write(json.dumps(rep["case"]) + "\n")
+        out = os.path.join(wd, "c.rep")
+        vlib.run_vh(["compat", "--cases", cf, "--out", out])
+        r = json.load(open(out))
+        print(json.dumps(r)[:1500])
+        if r["disagreements"] > 0:
+            print(f"VIOLATION property={prop} replay={path}")
+            return 1
+        return 0
+    c = rep["case"]
+    scen = [{"name": "replay", "seed": 1, "frag": 1344, "steps": [{"do": "participant"}, {"do": "participant"}, {"do": "sleep", "ms": 200},
+            {"do": "compat_case", "q": c["q"], "pp": c["pp"], "sp": c["sp"], "id": 0, "ms": 400}]}]
+    runs = simcheck.run_sim_batch(scen, wd, "r", jobs=1)
+    want = 1 if c["expect"] else 0
+    for e in runs[0] or []:
+        if e["ev"] == "CompatResult":
+            print(json.dumps(e))
+            if e.get("w_matched") != want or e.get("r_matched") != want:
+                print(f"VIOLATION property={prop} replay={path}")
+                return 1
+    return 0
+
+
+PROPS["C15"] = {"run": c15_run, "replay": c15_replay}
